@@ -253,12 +253,21 @@ def case_query(ctx, s: Subject, nest_name=IDENT_NEST):
         ctx.case("query.receiver_unchanged", {**s.desc(), "expr": es}, {"ok": False}, None, {"ok": True}, hyp=s.hyp)
 
 
-def case_query_base(ctx, s: Subject):
+def case_query_base(ctx, s: Subject, inplace=None, label_pattern=None):
     rng = ctx.rng
-    nf, labels, other = mk_nf(ctx, s, base_nan=True)
+    lab = gen.rand_labels(rng, len(s.content["rows"]), pattern=label_pattern) if label_pattern else None
+    nf, labels, other = mk_nf(ctx, s, base_nan=True, labels=lab)
     fj = frame_json(nf)
     ej, es = rand_cond(rng, None, [["id", "int64"], ["x", "double"]], depth=rng.choice([0, 1, 2]))
-    real = call_real(lambda: frame_view(nf.query(es)))
+    inplace = (rng.random() < 0.4) if inplace is None else inplace
+
+    def run():
+        if inplace:
+            nf2 = nf.copy()
+            assert nf2.query(es, inplace=True) is None
+            return frame_view(nf2)
+        return frame_view(nf.query(es))
+    real = call_real(run)
     ans = ctx.driver.call("frame.query", frame=fj, expr=ej)
     # spec (python): rows whose base values satisfy the condition, nested tables intact — computed by the model's
     # elementwise evaluator on base values; independent oracle below recomputes with pandas on a plain DataFrame
@@ -271,8 +280,10 @@ def case_query_base(ctx, s: Subject):
             exp["cols"].append([c[0], "nest", {"ty": c[2]["ty"], "rows": [r for r, k in zip(c[2]["rows"], keep) if k]}])
         else:
             exp["cols"].append([c[0], "base", c[2], [v for v, k in zip(c[3], keep) if k]])
-    ctx.case("query.base", {**s.desc(), "labels": labels, "expr": es, "expr_json": ej}, real, norm_frame(ans["model"]),
-             {"ok": exp}, hyp=s.hyp, features=s.features, nontrivial=s.nontrivial())
+    ctx.case("query.base", {**s.desc(), "labels": labels, "expr": es, "expr_json": ej, "inplace": inplace}, real,
+             norm_frame(ans["model"]), {"ok": exp}, hyp=s.hyp,
+             features=s.features + (f"inplace={inplace}", f"dup={len(set(map(str, labels))) < len(labels)}"),
+             nontrivial=s.nontrivial())
 
 
 def case_query_mixed(ctx, s: Subject):
@@ -755,6 +766,15 @@ def case_add_nested(ctx):
         return
     how = rng.choice(["left", "left", "right", "inner", "outer"])
     df = flat_df(flat)
+    with_prev = rng.random() < 0.4
+    if with_prev:
+        # the frame already holds a nested column, stored BEFORE another base column (one join indexer serves all blocks)
+        prev = Subject(ctx, nrows=len(labels), allow_hidden=False)
+        nf["prev"] = pd.Series(prev.fresh_ext(), index=nf.index, name="prev")
+        nf["y"] = np.arange(len(labels), dtype=np.float64) + 100.0
+        if rng.random() < 0.5:
+            prev2 = Subject(ctx, nrows=len(labels), allow_hidden=False)
+            nf["prev2"] = pd.Series(prev2.fresh_ext(), index=nf.index, name="prev2")
     before = frame_view(nf)
     fbefore = export.flat_df_view(df)
     real = call_real(lambda: frame_view(nf.add_nested(df, "n", how=how)))
@@ -768,8 +788,25 @@ def case_add_nested(ctx):
         # label is pandas' business (the property defers to pandas for this join kind)
         real, model = canon_equal_labels(real), canon_equal_labels(model)
     dup = len(set(map(str, labels))) < len(labels)
+    spec_ok = None
+    if how in ("right", "outer") and "ok" in real:
+        # a row that exists only in the flat table has NO value in any column the frame had before
+        base_labels = {export.label(l) if not isinstance(l, str) else l for l in labels}
+        base_labels |= set(map(str, labels))
+        bad = []
+        for pos, lab in enumerate(real["ok"]["index"]):
+            if lab in base_labels or str(lab) in base_labels:
+                continue
+            for c in real["ok"]["cols"]:
+                if c[0] == "n":
+                    continue
+                v = c[2]["rows"][pos] if c[1] == "nest" else c[3][pos]
+                if not (v is None or v == "nan" or (isinstance(v, float) and v != v)):
+                    bad.append([lab, c[0], v])
+        spec_ok = not bad
     ctx.case(f"add_nested.{how}", {"labels": labels, "flat": flat, "how": how}, real, model,
-             norm_frame(ans["spec"]) if how == "left" else None, features=(how, kind, f"dup_base={dup}", f"nflat={min(len(flat['index']), 9)}"),
+             norm_frame(ans["spec"]) if how == "left" else None, spec_ok=spec_ok,
+             features=(how, kind, f"dup_base={dup}", f"nflat={min(len(flat['index']), 9)}", f"prev={with_prev}"),
              nontrivial=len(flat["index"]) > 0 and len(labels) > 0)
     if frame_view(nf) != before or export.flat_df_view(df) != fbefore:
         ctx.case("add_nested.inputs_unchanged", {"labels": labels, "flat": flat}, {"ok": False}, None, {"ok": True})
@@ -997,7 +1034,7 @@ def case_reduce(ctx, s: Subject):
     # verbatim — also a string that happens to spell a column or a field path
     extra = rng.choice([(), (7,), (7, "k"), (7, "id"), (2.5, f"nest.{names[0]}"), ("k", "x"), (7, "x", "k"), (None, "id")])
     kwargs = rng.choice([{}, {"scale": 2}])
-    shape = rng.choice(["scalar", "tuple", "dict", "dotted"])
+    shape = rng.choice(["scalar", "tuple", "dict", "dotted", "dotted2"])
     log = []
 
     def fun(*a, **kw):
@@ -1011,6 +1048,10 @@ def case_reduce(ctx, s: Subject):
             return (i, k)
         if shape == "dict":
             return {"row": i, "count": k}
+        if shape == "dotted2":
+            # two output nests whose keys are interleaved (and a scalar in between)
+            return {"out.v": np.arange(k, dtype=np.int64) + i, "res.u": np.arange(k, dtype=np.int64) * 2, "row": i,
+                    "out.w": np.full(k, float(i))}
         return {"row": i, "out.v": np.arange(k, dtype=np.int64) + i, "out.w": np.full(k, float(i))}
     res = call_real(lambda: frame_view(nf.reduce(fun, *args, *extra, **kwargs)))
     # expected call log from the content
@@ -1056,6 +1097,14 @@ def case_reduce(ctx, s: Subject):
             spec_ok = [c[3] for c in r["cols"]] == [list(range(n)), k]
         elif shape == "dict":
             spec_ok = list(colmap) == ["row", "count"] and colmap["row"][3] == list(range(n)) and colmap["count"][3] == k
+        elif shape == "dotted2":
+            exp_out = [[["v", [j + i for j in range(k[i])]], ["w", [{"f": 2 * i}] * k[i]]] for i in range(n)]
+            exp_res = [[["u", [2 * j for j in range(k[i])]]] for i in range(n)]
+            spec_ok = (sorted(colmap) == ["out", "res", "row"] and colmap["row"][3] == list(range(n))
+                       and colmap["out"][1] == "nest" and colmap["res"][1] == "nest"
+                       and [[sorted(map(tuple, map(lambda p: (p[0], tuple(map(str, p[1]))), r))) for r in [rw]] for rw in colmap["out"][2]["rows"]]
+                       == [[sorted(map(tuple, map(lambda p: (p[0], tuple(map(str, p[1]))), r))) for r in [rw]] for rw in exp_out]
+                       and colmap["res"][2]["rows"] == exp_res)
         else:
             exp_rows = [[["v", [j + i for j in range(k[i])]], ["w", [{"f": 2 * i}] * k[i]]] for i in range(n)]
             spec_ok = (list(colmap) == ["row", "out"] and colmap["row"][3] == list(range(n))
